@@ -1,6 +1,7 @@
 package c10h
 
 import (
+	"os"
 	"sync"
 	"testing"
 	"time"
@@ -8,6 +9,9 @@ import (
 
 func TestBenchChain(t *testing.T) {
 	b := NewBase()
+	if os.Getenv("BALLAST") != "" {
+		ballast = make([]byte, 1<<30)
+	}
 	t0 := time.Now()
 	var wg sync.WaitGroup
 	for g := 0; g < 8; g++ {
@@ -23,3 +27,5 @@ func TestBenchChain(t *testing.T) {
 	wg.Wait()
 	t.Logf("800 NewChain+Destroy on 8 goroutines: %v", time.Since(t0))
 }
+
+var ballast []byte
